@@ -5,6 +5,9 @@
 From IBC Require Import Lib.Bytes Lib.Dec Codec.Abi Codec.AbiFacts Codec.Proto Codec.ProtoFacts.
 Local Open Scope N_scope.
 
+Definition ftpd_eqb_opt (o : option FTPD) (d : FTPD) : bool :=
+  match o with Some x => ftpd_eqb x d | None => false end.
+
 (** ** Solidity ABI, ICS-20 (string denom, string sender, string receiver, uint256 amount, string memo) *)
 
 (** Generic head/tail law used by all tuple codecs below: unpacking the packing of well-typed fields
@@ -129,12 +132,17 @@ Theorem C35_packet_attestation_not_bytes32_refuted :
 Proof. exact abi_packet_att_short_path_refuted. Qed.
 Print Assumptions C35_packet_attestation_not_bytes32_refuted.
 
-(** non-vacuity: concrete values meet the hypotheses and go through both codecs *)
+(** non-vacuity: concrete values meet the hypotheses and go through the codecs *)
+Definition C35_example : FTPD :=
+  mkFTPD (B "transfer/channel-0/uatom") (B "340282366920938463463374607431768211456")
+         (B "cosmos1sender") (B "0x0000000000000000000000000000000000000001") (B "{""k"":1}").
+
 Example C35_nonvacuous :
-  let d := mkFTPD (B "transfer/channel-0/uatom") (B "340282366920938463463374607431768211456")
-                  (B "cosmos1sender") (B "0x0000000000000000000000000000000000000001") (B "{""k"":1}") in
-  (exists bz, abi_encode_ftpd d = Some bz /\ blen bz = 480 /\ abi_decode_ftpd bz = Some d) /\
-  proto_decode_strict (proto_encode d) = Some d /\
+  (match abi_encode_ftpd C35_example with
+   | Some bz => (blen bz =? 480) && ftpd_eqb_opt (abi_decode_ftpd bz) C35_example
+   | None => false
+   end) = true /\
+  ftpd_eqb_opt (proto_decode_strict (proto_encode C35_example)) C35_example = true /\
   abi_decode_ftpd (B "garbage") = None /\
   abi_decode_state_att (abi_encode_state_att 42 1700000000000000000) = Some (42, 1700000000000000000).
-Proof. vm_compute. repeat split; eauto. Qed.
+Proof. vm_compute. auto. Qed.
